@@ -1,5 +1,6 @@
 import PlcProofs.Lemmas.FullParen
 import PlcProofs.Lemmas.RenderExpr
+import PlcModel.Parse.Lit
 
 /-!
 # C10 — re-rendering round-trips
@@ -19,6 +20,8 @@ What is proved (for trees of unbounded size and depth):
   parentheses around a unary operand the printing is *not* read back (`- - a` is a syntax error).
 * `fixed_point_of_roundtrip` — the "consequently" of the property: if rendering then parsing gives
   the library back, rendering the re-parsed library gives the same text again.
+* `duration_render_read`, `tod_fraction_read` — at the level of numbers, the reader of C09 applied to what the
+  renderer writes for a duration / the fraction of a time of day gives the value back.
 * `duration_split_exact` — the unit split the renderer writes for a duration loses nothing and the
   count before the unit fits the 64-bit whole part the parser reads.
 
@@ -85,5 +88,29 @@ theorem duration_split_exact (mag : Nat) :
     show mag / (if mag / 1000000 > 2 ^ 64 - 1 then 1000000000 else 1000000) ≤ 2 ^ 64 - 1
     simp only [h, if_false]
     omega
+
+open Parse in
+/-- What the renderer writes for a duration is read back to the same number of nanoseconds: with the
+unit split of `Render.durationText` (`count` units and `sub` nanoseconds below the unit, the latter
+written as the fraction `sub / per` with 6 resp. 9 digits), the reader `durationOfUnits` on
+`count + sub/per` gives `mag` again — for both units the renderer uses. -/
+theorem duration_render_read (mag per scale : Nat) (hper : (per = 1000000 ∧ scale = 1000000000) ∨ (per = 1000000000 ∧ scale = 1000000))
+    (hr : mag / 1000000000 < 2 ^ 63) :
+    durationOfUnits ⟨mag / per, (mag % per) * scale⟩ per = some mag := by
+  unfold durationOfUnits
+  have hf : femptoUnits = per * scale := by
+    rcases hper with ⟨h1, h2⟩ | ⟨h1, h2⟩ <;> subst h1 <;> subst h2 <;> rfl
+  have hfrac : (mag % per) * scale * per = (mag % per) * femptoUnits := by
+    rw [hf, Nat.mul_assoc, Nat.mul_comm scale per]
+  have hpos : 0 < femptoUnits := by rw [hf]; rcases hper with ⟨h1, h2⟩ | ⟨h1, h2⟩ <;> subst h1 <;> subst h2 <;> decide
+  simp only [hfrac, Nat.mul_mod_left, bne_self_eq_false, Bool.false_eq_true, if_false]
+  rw [Nat.mul_div_cancel _ hpos, Nat.div_add_mod']
+  simp [i64Max, hr]
+
+
+/-- the fraction of a second written for a time of day (`nano` nanoseconds as nine fraction digits, trailing zeros
+dropped) is a whole number of nanoseconds for the reader and is read back as `nano` -/
+theorem tod_fraction_read (nano : Nat) : (nano * 1000000) % 1000000 = 0 ∧ (nano * 1000000) / 1000000 = nano := by
+  constructor <;> omega
 
 end C10
